@@ -363,7 +363,7 @@ func TestVX_C14a(t *testing.T) {
 	}
 	defer os.RemoveAll(root)
 	cfgs := vxCfgsA()
-	deadline := mc.Deadline(70*time.Second, 9*time.Minute)
+	deadline := mc.Deadline(70*time.Second, 10*time.Minute)
 	for slot, ci := range vxSchedule(cfgs) {
 		if ci < 0 || !mc.Mine(slot) {
 			continue
